@@ -69,6 +69,8 @@ func main() {
 		cmdNative(os.Args[2:])
 	case "selftest":
 		cmdSelftest(os.Args[2:])
+	case "replay":
+		cmdReplay(os.Args[2:])
 	default:
 		fmt.Fprintln(os.Stderr, "unknown subcommand", os.Args[1])
 		os.Exit(2)
